@@ -207,6 +207,40 @@ def run(prog, rep, tier='quick', config='default'):
     if n_e == 0:
         rep.violation('R1e', 'anchor-lost:currency-pair-validation', detail='anchor lost: the function validating a (currency, rate) pair of a CSV row')
 
+    # ------------------------------------------------------------------ R1g: the commission's own (currency, rate) pair reaches the ledger as validated
+    TRANSPORT = {'clone', 'as_ref', 'deref', 'borrow', 'to_owned', 'cloned', 'copied', 'into', 'from', 'unwrap', 'expect', 'branch',
+                 'from_output', 'from_residual', 'map_err', 'ok_or', 'ok_or_else'}
+    n_g = 0
+    for g in prog.product_fns():
+        if not g.name.startswith('portfolio::model::tx::'):
+            continue
+        for i, b in g.blocks.items():
+            for s in b['stmts']:
+                r = s['r']
+                if r['rv'] != 'agg' or 'separate_commission_currency' not in r.get('fields', []):
+                    continue
+                o = r['ops'][r['fields'].index('separate_commission_currency')]
+                if not is_place(o):
+                    continue
+                org = mir.provenance(g, o, follow_all_call_args=True)
+                if not any(f == 'commission_currency' for (_, f) in org.fields):
+                    continue    # not built from a CSV row here
+                n_g += 1
+                bad = [c for c in org.calls if c.short not in TRANSPORT and prog.resolve(c.callee, g.crate) is None]
+                k = '%s|commission-pair-reaches-ledger-as-validated' % g.name
+                if bad:
+                    rep.violation('R1g', k, where=bad[0].where(), fn=g.name,
+                                  detail='between validation and the transaction record the commission\'s own (currency, rate) pair passes through %s: '
+                                         'a pair that was given can be dropped or replaced, and the commission is then converted at the trade\'s rate '
+                                         'instead of its own' % short(bad[0].callee))
+                else:
+                    rep.ok('R1g', k, where=g.where(s), fn=g.name,
+                           detail='separate_commission_currency is the validated (currency, rate) pair of the row, moved unchanged '
+                                  '(calls on the way: %s)' % sorted({short(c.callee) for c in org.calls}))
+    if n_g == 0:
+        rep.violation('R1g', 'anchor-lost:commission-pair-construction',
+                      detail='anchor lost: no aggregate with a separate_commission_currency field built from CsvTx.commission_currency')
+
     # ------------------------------------------------------------------ R1d: own exchange rate
     for arm in ('Buy', 'Sell'):
         n = 0
